@@ -64,3 +64,64 @@ def reset_mutable_defaults():
     for name in ("simulate", "backward_simulate"):
         for k, v in _defaults_of(getattr(_bp.BaseProject, name)).items():
             v.clear()
+
+
+# ---------------------------------------------------------------------------------------------
+# Watchdog: a library call that does not return is an observation, not a reason for the check to
+# hang.  The outermost call of each public entry point is run under an interval timer; on expiry a
+# TimeoutError is raised inside the call, which every check reports like any other exception
+# (C05: "simulate() always returns").  Harness-side wrapping only; /repo is not modified.
+# ---------------------------------------------------------------------------------------------
+import functools  # noqa: E402
+import signal  # noqa: E402
+
+CALL_LIMIT_S = float(os.environ.get("VERIF_CALL_LIMIT_S", "30"))
+_depth = [0]
+_timeouts = [0]
+
+
+def _on_alarm(signum, frame):
+    _timeouts[0] += 1
+    raise TimeoutError("pDESy call did not return within %.0f s (non-termination)" % CALL_LIMIT_S)
+
+
+def _limited(fn):
+    @functools.wraps(fn)
+    def wrapper(*a, **k):
+        if _depth[0] > 0:
+            return fn(*a, **k)
+        _depth[0] += 1
+        try:
+            old = signal.signal(signal.SIGALRM, _on_alarm)
+            # after two expiries in this process later calls get a short limit, so that a change which makes
+            # many executions hang costs seconds, not hours (normal calls take milliseconds)
+            signal.setitimer(signal.ITIMER_REAL, CALL_LIMIT_S if _timeouts[0] < 2 else min(CALL_LIMIT_S, 3.0))
+        except ValueError:  # not in the main thread: no watchdog
+            _depth[0] -= 1
+            return fn(*a, **k)
+        try:
+            return fn(*a, **k)
+        finally:
+            signal.setitimer(signal.ITIMER_REAL, 0)
+            signal.signal(signal.SIGALRM, old)
+            _depth[0] -= 1
+
+    wrapper._verif_limited = True
+    return wrapper
+
+
+def _install_watchdog():
+    from pDESy.model.base_workflow import BaseWorkflow
+
+    for cls, names in (
+        (_bp.BaseProject, ("simulate", "backward_simulate", "initialize", "insert_absence_time_list", "remove_absence_time_list",
+                           "write_simple_json", "read_simple_json", "reverse_log_information")),
+        (BaseWorkflow, ("initialize", "update_PERT_data")),
+    ):
+        for nm in names:
+            fn = cls.__dict__.get(nm)
+            if fn is not None and not getattr(fn, "_verif_limited", False):
+                setattr(cls, nm, _limited(fn))
+
+
+_install_watchdog()
